@@ -1,5 +1,6 @@
 import Skv.Lemmas.PipelinePermits
 import Skv.Lemmas.LockOrder
+import Skv.Lemmas.Stall
 import Skv.Props.C05
 /-!
 # C17 — commits and shutdown always complete; no internal queue overflows
@@ -131,3 +132,56 @@ theorem C17_old_reader_order_deadlocks :
     disciplined old = false ∧
       (let s : LSys := [{ prog := old, pc := 2 }, { prog := opCompact, pc := 1 }]
        blocked s 0 = true ∧ blocked s 1 = true) := by decide
+
+
+/-! ## write-stall wait (src/stall.rs): no lost wake-up -/
+
+/-- **C17 (no lost wake-up).** In every interleaving of any number of committers inside
+`WriteStallController::check` with the background work that raises and clears the stall condition, the
+shutdown flag, and the `notify_waiters` calls: whenever a committer is blocked in `notified.await` and
+no signal is owed (every clearing and every shutdown-flag store has been followed by its
+`notify_waiters`), the stall condition really holds and the store is not shutting down.  So a committer
+never sleeps through the signal that was meant for it. -/
+theorem C17_no_lost_wakeup (ops : List SOp) (i : Nat)
+    (hb : (SState.run {} ops).blocked i = true) (hq : (SState.run {} ops).owed = 0) :
+    (SState.run {} ops).stalled = true ∧ (SState.run {} ops).shutdown = false := by
+  have h := sinv_run ops {} sinv_init
+  unfold SState.blocked at hb
+  split at hb
+  · rename_i g hp
+    rcases h.dec i g hp with h1 | h1 | h1
+    · simp [h1] at hb
+    · omega
+    · exact h1
+  · rename_i g hp; exact absurd hp (h.noPark i g)
+  · cases hb
+
+/-- a waiting committer is released by the next signal, whatever else happened since it registered -/
+theorem C17_signal_releases (ops : List SOp) (i g : Nat) (hp : (SState.run {} ops).phase i = .decided g) :
+    (((SState.run {} ops).step .signal).step (.await i)).phase i = .idle := by
+  have h := sinv_run ops {} sinv_init
+  have hle := h.decLe i g hp
+  have hp' : ((SState.run {} ops).step .signal).phase i = .decided g := hp
+  have hlt : g < ((SState.run {} ops).step .signal).gen :=
+    show g < (SState.run {} ops).gen + 1 from Nat.lt_succ_of_le hle
+  exact SState.await_of_lt _ i g hp' hlt
+
+/-- once released it re-reads the state: it returns `Ok` when the condition is clear and the store is open,
+and `Err(PipelineStall)` when the store is shutting down -/
+theorem C17_released_committer_returns (s : SState) (i : Nat) (hp : s.phase i = .idle) :
+    (((s.step (.register i)).step (.read i)).phase i =
+      if s.shutdown then .returned false else if !s.stalled then .returned true else .decided s.gen) := by
+  cases hs : s.shutdown <;> cases hst : s.stalled <;> simp [SState.step, hp, hs, hst]
+
+/-- the variant that creates the `Notified` future only when it has decided to wait does lose the
+wake-up: stall, committer 0 reads "stalled", the flush clears and signals, the committer then waits —
+blocked with the condition clear and no signal owed. -/
+theorem C17_late_registration_loses_wakeup :
+    let s := SState.runLate {} [.stall, .register 0, .read 0, .clear, .signal, .await 0]
+    s.blocked 0 = true ∧ s.owed = 0 ∧ s.stalled = false := by decide
+
+/-- non-vacuity: in the code as written the same schedule releases the committer, which then returns -/
+example :
+    let s := SState.run {} [.stall, .register 0, .read 0, .clear, .signal, .await 0, .register 0, .read 0]
+    s.blocked 0 = false ∧ s.phase 0 = .returned true := by decide
+example : (SState.run {} [.stall, .register 0, .read 0, .await 0]).blocked 0 = true := by decide
